@@ -188,7 +188,16 @@ def build_eval(fam):
 def _run_eval_chunk(args):
     binp, lines, timeout = args
     data = ("\n".join(lines) + "\n").encode()
-    p = subprocess.run([binp], input=data, stdout=subprocess.PIPE, stderr=subprocess.PIPE, timeout=timeout)
+    def big_stack():
+        # the extracted evaluator is not tail recursive everywhere: long case lines need a deep stack
+        import resource
+        try:
+            resource.setrlimit(resource.RLIMIT_STACK, (resource.RLIM_INFINITY, resource.RLIM_INFINITY))
+        except (ValueError, OSError):
+            soft, hard = resource.getrlimit(resource.RLIMIT_STACK)
+            resource.setrlimit(resource.RLIMIT_STACK, (hard, hard))
+    p = subprocess.run([binp], input=data, stdout=subprocess.PIPE, stderr=subprocess.PIPE, timeout=timeout,
+                       preexec_fn=big_stack)
     if p.returncode != 0:
         return None, p.stderr.decode()[-2000:]
     out = p.stdout.decode("latin-1").split("\n")
